@@ -279,6 +279,30 @@ func judge(base, got []opResult) verdict {
 		switch {
 		case g.panicMsg != "":
 			return verdict{outcome: "read-panic", op: g.name, detail: g.panicMsg, where: topPebbleFrame(g.stack), stack: g.stack}
+		case g.name == "scan-past-value-errors":
+			// line by line: the pristine line, or the value-error marker; with an
+			// iterator-level error the transcript may stop early
+			sawErr := g.err != nil
+			n := max(len(g.lines), len(b.lines))
+			if g.err != nil {
+				n = len(g.lines)
+			}
+			for i := 0; i < n; i++ {
+				if i < len(g.lines) && g.lines[i] == valueErrorMarker && i < len(b.lines) {
+					sawErr = true
+					continue
+				}
+				if i >= len(g.lines) || i >= len(b.lines) || g.lines[i] != b.lines[i] {
+					return verdict{outcome: "wrong-data", op: g.name, detail: firstDiff(g.lines, b.lines) + " (reader continued after per-value errors)"}
+				}
+			}
+			if sawErr && v.outcome == "identical" {
+				et := "value fetch failed"
+				if g.err != nil {
+					et = g.err.Error()
+				}
+				v = verdict{outcome: "error", op: g.name, errText: et}
+			}
 		case g.err != nil:
 			if scanLikeOps[g.name] {
 				if len(g.lines) > len(b.lines) || !slices.Equal(g.lines, b.lines[:len(g.lines)]) {
